@@ -155,6 +155,16 @@ pub fn run(tier: &str, seed: u64, dir: &str) {
             sink.case(&op, &eval(&op), "join-walk", true);
         }
     }
+    // dynamic plans: masks that name no defined channel after a removal (NewChannelReq / CFList)
+    for region in REGIONS {
+        if is_fixed(region) {
+            continue;
+        }
+        for k in 0..(if thorough { 60 } else { 9 }) {
+            let op = stale_mask_history("C04", &mut rng, region, k % 3);
+            sink.case(&op, &eval(&op), "stale-mask", true);
+        }
+    }
     let per_region = if thorough { 4000 } else { 220 };
     for region in REGIONS {
         for i in 0..per_region {
